@@ -54,12 +54,12 @@ func (v VolumeOfType) Data(ctx context.Context, s *types.State) (*types.Data, er
 		if ref.Artifact != biosImg {
 			return nil, fmt.Errorf("reference %s is not referencing to the BIOSImage", format.NiceString(ref))
 		}
-		ranges, err := ref.ResolvedRanges()
+		refRanges, err := ref.ResolvedRanges()
 		if err != nil {
 			return nil, fmt.Errorf("unable to get resolve data ranges: %w", err)
 		}
 
-		for _, r := range ranges {
+		for _, r := range refRanges {
 			nodes, err := uefiImg.GetByRange(r)
 			if err != nil {
 				return nil, fmt.Errorf("unable to get nodes by range %#+v: %w", r, err)
